@@ -116,6 +116,32 @@ func c09format4(r *rand.Rand, limit int) (cmap.Format4, map[string]bool) {
 			}
 		}
 	}
+	if limit == 0 && r.IntN(12) == 0 {
+		// one block of consecutive codes whose first and last glyph ids are
+		// as far apart as the codes, with the interior disturbed: two
+		// neighbours exchanged, one entry replaced, or one code unmapped
+		g.cls["gen:single-block-interior-disturbed"] = true
+		l := 3 + r.IntN(40)
+		start := r.IntN(0x10000 - l)
+		g0 := 1 + r.IntN(0xFFFF-l)
+		for i := 0; i < l; i++ {
+			g.m[uint16(start+i)] = glyph.ID(g0 + i)
+		}
+		i := 1 + r.IntN(l-2)
+		switch r.IntN(3) {
+		case 0:
+			if i+1 < l-1 {
+				g.m[uint16(start+i)], g.m[uint16(start+i+1)] = g.m[uint16(start+i+1)], g.m[uint16(start+i)]
+			} else {
+				g.m[uint16(start+i)] = glyph.ID(1 + r.IntN(0xFFFF))
+			}
+		case 1:
+			g.m[uint16(start+i)] = glyph.ID(1 + r.IntN(0xFFFF))
+		default:
+			delete(g.m, uint16(start+i))
+		}
+		return g.m, g.cls
+	}
 	switch {
 	case size == 0:
 		g.cls["gen:empty"] = true
@@ -451,7 +477,7 @@ func runC09(c *mon.Ctx) {
 	c.Stratum("fmt4-limit", c.N(32, 640), func(k *mon.Case) { c09fmt4(k, 2+k.Index%2) })
 	c.Stratum("fmt4-dense", c.N(2, 48), func(k *mon.Case) { c09fmt4(k, 1) })
 	c.Require("seg:delta", "seg:array", "seg:mixed", "gen:delta-wraps", "gen:empty", "gen:single",
-		"gen:limit-dense", "gen:limit-sparse", "gen:limit-blocks", "fmt4:code-ffff-mapped", "fmt4:above-60000-bytes", "ximage:agrees",
+		"gen:single-block-interior-disturbed", "gen:limit-dense", "gen:limit-sparse", "gen:limit-blocks", "fmt4:code-ffff-mapped", "fmt4:above-60000-bytes", "ximage:agrees",
 		"gen:explicit-zero", "gen:explicit-zero-behind-glyph-ffff", "gen:explicit-zero-at-code-0", "gen:explicit-zero-at-code-ffff")
 
 	// ------------------------------------------------------------------
